@@ -4,7 +4,7 @@ from ..norm import n, P, C, V, ANY, match, find_all, binop
 from . import layout, common, hexcodec, cmpmodel
 
 ID = "C04"
-CONFIGS = {"quick": ["K0", "K1", "K3", "K6"], "thorough": ["K0", "K1", "K2", "K3", "K4", "K5", "K6", "K13"]}
+CONFIGS = {"quick": ["K0", "K1", "K3", "K4", "K6"], "thorough": ["K0", "K1", "K2", "K3", "K4", "K5", "K6", "K13"]}
 META = {
     "explanation": (
         "Static analysis (constant evaluator + MIR paths).  The encode and decode tables are compared by value with the "
